@@ -347,7 +347,7 @@ pub fn run_many_local<F: Fn(usize, &mut Emitter)>(n: usize, cfg: &RunCfg, body: 
                 revents: 0,
             })
             .collect();
-        let _ = unsafe { libc::poll(pfds.as_mut_ptr(), pfds.len() as libc::nfds_t, 20) };
+        let _ = unsafe { libc::poll(pfds.as_mut_ptr(), pfds.len() as libc::nfds_t, 5) };
         if pfds.is_empty() {
             continue;
         }
